@@ -446,7 +446,10 @@ let explore cap u maxstates depth prefix flavor =
               k kinds.((n / 9) mod 3) (ep 2)
               (ep 3) (ep 4)
               (n mod 3) ((n / 3) mod 4) kinds.((n / 12) mod 3) (ep 5) in
-          pr "H %s.%d rust cap=%d dump=%d\n%s%s\nG %d\n%s%s" tag !nh cap (plen + 1) path line k probes rprobes;
+          (* lookups and a write through get_mut on the key just touched and on its neighbours (absent keys included) *)
+          let kprobes = Printf.sprintf "G %d\nC %d\nM %d %d\nM %d %d\nGM %d %d\nG %d\nIT items 0:%d\n"
+              k ((k + 1) mod u) k (900 + k) ((k + 1) mod u) (800 + k) k ((k + u - 1) mod u) ((k + 1) mod u) (u + 1) in
+          pr "H %s.%d rust cap=%d dump=%d\n%s%s\n%s%s%s" tag !nh cap (plen + 1) path line probes rprobes kprobes;
           incr nh;
           (match out with
            | UPanic | UFuel | UUB -> ()
